@@ -1,0 +1,59 @@
+//go:build verif
+// +build verif
+
+package main
+
+// Trace hook for the verification harness in /verif (build tag `verif` only; a no-op without the tag, see
+// verif_trace_off.go). When the environment variable OW_TRACE names a file, every call appends one line
+// "<event> <int> <int> ..." to it under a mutex, so the order of the lines is a total order consistent with the
+// order of the calls inside each goroutine. When OW_TRACE_JITTER is a non-zero integer, each call additionally
+// yields/sleeps for a pseudo-random time (0 to ~1ms) derived from it, which only perturbs the goroutine schedule.
+
+import (
+	"fmt"
+	"os"
+	"runtime"
+	"strconv"
+	"sync"
+	"time"
+)
+
+var (
+	verifTraceMu     sync.Mutex
+	verifTraceFile   *os.File
+	verifTraceOpened bool
+	verifTraceJitter uint64
+)
+
+func verifTrace(event string, args ...int) {
+	verifTraceMu.Lock()
+	if !verifTraceOpened {
+		verifTraceOpened = true
+		if fn := os.Getenv("OW_TRACE"); fn != "" {
+			verifTraceFile, _ = os.OpenFile(fn, os.O_WRONLY|os.O_CREATE|os.O_APPEND, 0644)
+		}
+		verifTraceJitter, _ = strconv.ParseUint(os.Getenv("OW_TRACE_JITTER"), 10, 64)
+	}
+	if verifTraceFile != nil {
+		line := event
+		for _, a := range args {
+			line += " " + strconv.Itoa(a)
+		}
+		fmt.Fprintln(verifTraceFile, line)
+	}
+	pause := uint64(0)
+	if verifTraceJitter != 0 {
+		verifTraceJitter += 0x9e3779b97f4a7c15
+		z := verifTraceJitter
+		z = (z ^ (z >> 30)) * 0xbf58476d1ce4e5b9
+		z = (z ^ (z >> 27)) * 0x94d049bb133111eb
+		pause = (z ^ (z >> 31)) % 8
+	}
+	verifTraceMu.Unlock()
+	switch {
+	case pause >= 6:
+		time.Sleep(time.Duration(pause-5) * 400 * time.Microsecond)
+	case pause >= 3:
+		runtime.Gosched()
+	}
+}
